@@ -26,7 +26,7 @@ THRESHOLDS = {"rel": 1e-6}
 
 
 def cases(tier, seed):
-    reps = 2 if tier == "quick" else 40
+    reps = 2 if tier == "quick" else 100
     out = []
     for ci, cell in enumerate(zoo.matrix()):
         for r in range(reps):
